@@ -101,3 +101,21 @@ package client
 //@   loop 1 invariant failed: c.failedAll == old(c.failedAll) + 1
 //@   at call(failPendingRequests) assert whose: arg_err == err && arg_forwardedHost == streamClient.forwardedHost
 //@   at call(recreateStreamingClientOnce) assert failedfirst: c.failedAll == old(c.failedAll) + 1 && arg_streamClient == streamClient
+
+// ---- request collapsing (C18): which calls may share one response ------------------------------------------------------------
+// Only a whole-region ResolveLock (no key list, no transaction list) is collapsed, and the single-flight key is built from
+// the region the REQUEST is addressed to (the envelope's RegionId, set by the region request sender - the inner context is
+// attached only below this layer), the transaction's start version and the async flag: calls for different regions or
+// different transactions never share a response.
+//@ func resolveLockCollapseKey
+//@   prop C18
+//@   may-panic
+//@   at call(FormatUint#1) assert region: arg0 == req.RegionId && arg1 == 10
+//@   at call(FormatUint#2) assert txn: arg0 == req.Req.(*kvrpcpb.ResolveLockRequest).StartVersion && arg1 == 10
+//@   at call(FormatBool) assert mode: arg0 == req.Req.(*kvrpcpb.ResolveLockRequest).IsAsync
+//@ func (reqCollapse) tryCollapseRequest
+//@   prop C18
+//@   may-panic
+//@   opaque-callee collapse resolveLockCollapseKey
+//@   ensures only: canCollapse ==> req.Type == tikvrpc.CmdResolveLock && len(req.Req.(*kvrpcpb.ResolveLockRequest).Keys) == 0 && len(req.Req.(*kvrpcpb.ResolveLockRequest).TxnInfos) == 0
+//@   ensures direct: !canCollapse ==> resp == nil && err == nil
